@@ -52,15 +52,16 @@ def _run_tlc(ck, label, *, timeout=900, workers=6, tags=(), sinks=None, simulate
     return res
 
 
-def evaluate(ck, outcome, confirm):
-    """Compare one observation with what C11 states. Returns a list of (signature, record)."""
+def evaluate(outcome):
+    """Compare one observation with what C11 states. Returns (divergences, liveness_candidate)."""
     out = []
     sid = outcome["id"]
     base = {"id": sid, "ops": outcome.get("scenario", {}).get("tlc_ops"), "scenario": outcome.get("scenario")}
     if "panic" in outcome:
-        return [({"sub": "dtls", "rule": "NoPanic"}, dict(base, panic=outcome["panic"]))]
+        return [({"sub": "dtls", "rule": "NoPanic"}, dict(base, panic=outcome["panic"]))], None
     obs = outcome["obs"]
     fin = obs["final"]
+    cand = None
     if obs.get("both_connected"):
         for field, ok in (("keys", obs["keys_equal"] and obs["master_equal"]),
                           ("profile", obs["profile"]["C"] == obs["profile"]["S"]),
@@ -72,32 +73,47 @@ def evaluate(ck, outcome, confirm):
                 out.append(({"sub": "dtls", "rule": "AppDataReadable", "dir": d, "result": obs["app"][d]["result"]},
                             dict(base, obs=obs)))
     else:
-        # finitely many faults, deadline 75 retransmission ticks away: both must have connected
-        again = confirm(outcome)
-        if again is not None:
-            out.append(({"sub": "dtls", "rule": "Converge", "C": fin["C"], "S": fin["S"]},
-                        dict(base, obs=obs, confirmations=again)))
+        # finitely many faults, deadline 75 retransmission ticks away: both must have connected.
+        # Reported only after confirmation (see confirm_liveness).
+        cand = ({"sub": "dtls", "rule": "Converge", "C": fin["C"], "S": fin["S"]}, dict(base, obs=obs))
     if obs.get("stray_app", 0):
         out.append(({"sub": "dtls", "rule": "NoStrayAppData"}, dict(base, obs=obs)))
-    return out
+    return out, cand
 
 
-def make_confirm(ck):
-    def confirm(outcome):
-        """A liveness failure is reported only if the same schedule fails three more times, the last run alone."""
-        sc = outcome["scenario"]
-        finals = []
-        for n, par in ((0, 2), (1, 2), (2, 1)):
-            rep = dict(sc, id=f"{sc['id']}_c{n}")
-            r = dc.run_scenarios(ck, [rep], f"confirm_{sc['id']}_{n}", nproc=1)[0]
-            if "panic" in r:
-                finals.append("panic")
-                continue
-            if r["obs"].get("both_connected"):
-                return None
-            finals.append(r["obs"]["final"])
-        return finals
-    return confirm
+def confirm_liveness(ck, cands):
+    """A liveness failure is reported only if the same content-addressed schedule fails three more times:
+    two parallel batches, then each still-failing schedule once more on its own."""
+    alive = list(cands)
+    history = {rec["id"]: [] for _, rec in alive}
+    for rnd in range(3):
+        if not alive:
+            break
+        if rnd == 2:
+            # the solo pass is slow (a deadline each): at most 6 schedules per signature go through it, the
+            # rest is dropped unreported (the signature is reported through the confirmed ones)
+            per_sig, keep = {}, []
+            for sig, rec in alive:
+                k = json.dumps(sig, sort_keys=True)
+                per_sig[k] = per_sig.get(k, 0) + 1
+                if per_sig[k] <= 6:
+                    keep.append((sig, rec))
+            if len(keep) < len(alive):
+                ck.notes.append(f"{len(alive) - len(keep)} further schedules failed twice with an already confirmed signature; not individually confirmed")
+            alive = keep
+        reps = [dict(rec["scenario"], id=f"{rec['id']}_c{rnd}") for _, rec in alive]
+        if rnd < 2:
+            outs = dc.run_scenarios(ck, reps, f"confirm{rnd}", nproc=4)
+        else:
+            outs = [dc.run_scenarios(ck, [r], f"confirm{rnd}", nproc=1)[0] for r in reps]
+        nxt = []
+        for (sig, rec), o in zip(alive, outs):
+            if "panic" not in o and o["obs"].get("both_connected"):
+                continue                                     # it converged this time: not reported
+            history[rec["id"]].append("panic" if "panic" in o else o["obs"]["final"])
+            nxt.append((sig, rec))
+        alive = nxt
+    return [(sig, dict(rec, confirmations=history[rec["id"]])) for sig, rec in alive]
 
 
 def run(tier):
@@ -151,13 +167,18 @@ def run(tier):
     scenarios = singles + pairs
     outcomes = dc.run_scenarios(ck, scenarios, tier, nproc=8 if not thorough else 12,
                                 timeout=600 if not thorough else 3000)
-    confirm = make_confirm(ck)
     unfired = 0
+    cands = []
     for o in outcomes:
-        for sig, rec in evaluate(ck, o, confirm):
+        divs, cand = evaluate(o)
+        for sig, rec in divs:
             ck.divergence(sig, rec)
+        if cand:
+            cands.append(cand)
         if "panic" not in o:
             unfired += sum(1 for op in o["ops"] if not op["fired"])
+    for sig, rec in confirm_liveness(ck, cands):
+        ck.divergence(sig, rec)
 
     # trace validation of every recorded run
     accepted, rejections, tres = dc.validate_traces(ck, outcomes, dc.OPEN_DEVIATIONS, tier)
@@ -207,9 +228,15 @@ def replay(path):
         rec = json.load(f)["record"]
     sc = rec["scenario"]
     outcomes = dc.run_scenarios(ck, [sc], "replay", nproc=1)
+    cands = []
     for o in outcomes:
-        for sig, r in evaluate(ck, o, make_confirm(ck)):
+        divs, cand = evaluate(o)
+        for sig, r in divs:
             ck.divergence(sig, r)
+        if cand:
+            cands.append(cand)
+    for sig, r in confirm_liveness(ck, cands):
+        ck.divergence(sig, r)
     accepted, rejections, tres = dc.validate_traces(ck, outcomes, dc.OPEN_DEVIATIONS, "replay")
     for rj in rejections:
         if rj["rule"] in PROPERTY_RULES:
